@@ -278,3 +278,11 @@ def probe_spec(spec):
     m2 = re.search(r"(?m)^\s*(decreases|opens_invariants|no_unwind)\b", tail)
     rest = tail[m2.start():] if m2 else ""
     return head + "\n    ensures false,\n" + rest
+
+
+def add_requires(spec, cond):
+    """diagnosis: add one more precondition (case split of a failing obligation)"""
+    m = re.search(r"(?m)^\s*requires\b", spec)
+    if m:
+        return spec[:m.end()] + " " + cond + "," + spec[m.end():]
+    return "    requires " + cond + ",\n" + spec
